@@ -1261,6 +1261,8 @@ class Container:
         moles = sum(Unit.convert_from(substance, value, stored_unit(substance), 'mol') for substance, value in
                     source.contents.items())
         volume = Unit.convert_from_storage(source.volume, 'mL')
+        if volume <= 0 or moles <= 0:
+            raise ValueError("Source container is empty.")
         d_x = mass / volume
         mw_x = mass / moles
         m_x = Unit.convert_from_storage(source.contents.get(solute, 0), 'mol') / (volume / 1000)
@@ -1271,6 +1273,8 @@ class Container:
             moles = sum(Unit.convert_from(substance, value, stored_unit(substance), 'mol') for substance, value in
                         solvent.contents.items())
             volume = Unit.convert_from_storage(solvent.volume, 'mL')
+            if volume <= 0 or moles <= 0:
+                raise ValueError("Solvent container is empty.")
             d_y = mass / volume
             mw_y = mass / moles
             m_y = Unit.convert_from_storage(solvent.contents.get(solute, 0), 'mol') / (volume / 1000)
